@@ -67,7 +67,9 @@ func (s *Sim) Quiesce(what string) {
 		return
 	}
 	for _, t := range s.Tabs {
-		for _, it := range s.liveIters(t) {
+		live := s.liveIters(t)
+		s.Rng.Shuffle(len(live), func(i, j int) { live[i], live[j] = live[j], live[i] }) // any of them may be the last to catch up
+		for _, it := range live {
 			for round := 0; round < 50 && !s.Failed; round++ {
 				s.iterNextFull(what+" drain", it, s.DB.ReadTxn(), t.committed)
 				if it.openWatch != nil {
